@@ -476,6 +476,15 @@ def resolve_index(lst, idesc):
     return idesc[1]
 
 
+def resolve_path_index(lst, idesc):
+    """Index inside a rebind path: in range, or past the end (append)."""
+    k = resolve_index(lst, idesc)
+    n = len(lst)
+    if k < 0:
+        k = k + n if -n <= k else 0
+    return k
+
+
 def resolve_path(forest, node, path_desc):
     """Walks a generated path below `node`; returns list of real keys."""
     keys = []
@@ -485,7 +494,7 @@ def resolve_path(forest, node, path_desc):
             k = resolve_key(cur, comp if comp[0] in ('existing', 'new') else ['existing', comp[1]])
         elif isinstance(cur, pg.List):
             if comp[0] in ('existing', 'neg', 'abs'):
-                k = resolve_index(cur, comp)
+                k = resolve_path_index(cur, comp)   # canonical: one slot, one key
             else:
                 k = resolve_index(cur, ['existing', 0] if comp[0] == 'new' else ['existing', comp[1]])
             if comp[0] == 'new':
@@ -756,7 +765,24 @@ def op_rebind(f, t, a, out):
         v = materialize(f, vd)
         pairs[pg.KeyPath(keys)] = v
         written.append(out.target_path + keys)
-    if a.get('reject_at') is not None and pairs:
+    if f.case.get('prop') == 'C02':
+        ks = [tuple(p.keys) for p in pairs]
+        for i, p in enumerate(ks):
+            for j, q in enumerate(ks):
+                if i != j and p[:len(q)] == q:
+                    out.skipped = True      # overlapping paths: order-dependent batch
+                    return
+        for kp, v in pairs.items():
+            if isinstance(v, pg.Insertion) or v is MISSING:
+                try:
+                    parent = kp.parent.query(t) if len(kp) > 1 else t
+                except Exception:  # pylint: disable=broad-except
+                    parent = None
+                if not isinstance(parent, pg.List) or v is MISSING or \
+                        not isinstance(kp.key, int):
+                    out.skipped = True
+                    return
+    if a.get('reject_at') is not None and pairs and f.case.get('prop') != 'C02':
         # fault: make one element of the batch unacceptable (a key that is not
         # a str/int is rejected by every container)
         ks = sorted(pairs, key=str)
@@ -948,6 +974,7 @@ def run_case(case: dict, prop=None):
             fired0 = forest.fault_fired
             out = execute(forest, op)
             if out.status == 'skipped':
+                oracle.on_skipped(step, op)
                 continue
             interrupted = forest.fault_fired > fired0
             if interrupted:
@@ -1004,6 +1031,9 @@ class OracleBase:
         pass
 
     def after(self, step, op, out, pre, post, pre_nodes, interrupted):
+        pass
+
+    def on_skipped(self, step, op):
         pass
 
     # shared pieces ---------------------------------------------------------
@@ -1143,3 +1173,350 @@ ASSUMPTIONS = [
     'after an injected handler exception, re-indexing/cache freshness of that one root is not '
     'asserted until its next successful notification',
 ]
+
+
+# ---------------------------------------------------------------------------
+# C02: pg.List / pg.Dict against Python list / dict
+
+
+def _mnav(m, keys):
+    for k in keys:
+        m = m[k]
+    return m
+
+
+class C02Oracle(OracleBase):
+    """The reference is the interpreter: a plain twin driven by the same op."""
+
+    def start(self):
+        self.mirrors = [values.build(d['v'], symbolic=False) for d in self.case['roots']]
+        self.pending = None
+
+    def before(self, step, op, pre):
+        self.pending = None
+        f = self.forest
+        r, t = f.select(op['t'])
+        if t is None:
+            return
+        k, a = op['k'], op['a']
+        if (k.startswith('l_') and not isinstance(t, pg.List)) or \
+                (k.startswith('d_') and not isinstance(t, pg.Dict)) or k.startswith('o_'):
+            return
+        try:
+            m = _mnav(self.mirrors[r], list(t.sym_path.keys))
+        except (KeyError, IndexError, TypeError):
+            return
+        res = {'status': 'ok', 'result': None, 'exc': None, 'new': None, 'skip': False}
+        try:
+            res['result'] = self._apply(k, a, t, m, res, r)
+        except (IndexError, KeyError, ValueError, TypeError) as e:
+            res['status'], res['exc'] = 'raised', e
+        self.pending = (r, res)
+
+    def _apply(self, k, a, t, m, res, r):
+        f = self.forest
+        mat = lambda d: values.build(d, symbolic=False)
+        if k == 'l_setitem':
+            m[resolve_index(t, a['i'])] = mat(a['v'])
+        elif k == 'l_setslice':
+            m[slice(*a['s'])] = [mat(x) for x in a['vs']]
+        elif k == 'l_getslice':
+            return m[slice(*a['s'])]
+        elif k == 'l_delitem':
+            del m[resolve_index(t, a['i'])]
+        elif k == 'l_append':
+            m.append(mat(a['v']))
+        elif k == 'l_insert':
+            m.insert(resolve_index(t, a['i']), mat(a['v']))
+        elif k == 'l_extend':
+            m.extend([mat(x) for x in a['vs']])
+        elif k == 'l_pop':
+            return m.pop(resolve_index(t, a['i']))
+        elif k == 'l_remove':
+            i = resolve_index(t, a['i'])
+            v = copy.deepcopy(m[i]) if len(m) and a['i'][0] == 'existing' else mat(a['v'])
+            m.remove(v)
+        elif k == 'l_clear':
+            m.clear()
+        elif k == 'l_sort':
+            if len({type(x) for x in m}) > 1 or any(isinstance(x, (list, dict, type(None))) for x in m):
+                res['skip'] = True
+                return None
+            m.sort(reverse=a.get('reverse', False))
+        elif k == 'l_reverse':
+            m.reverse()
+        elif k == 'l_iadd':
+            m += [mat(x) for x in a['vs']]
+        elif k == 'l_imul':
+            if len(m) * max(a['n'], 1) > 16:
+                res['skip'] = True
+                return None
+            # (a symbolic list cannot alias one child in two slots: copies)
+            m[:] = [copy.deepcopy(x) for x in m * a['n']]
+        elif k == 'l_add':
+            res['new'] = copy.deepcopy(m + [mat(x) for x in a['vs']])
+            return res['new']
+        elif k == 'l_mul':
+            if len(m) * max(a['n'], 1) > 16:
+                res['skip'] = True
+                return None
+            res['new'] = [copy.deepcopy(x) for x in m * a['n']]
+            return res['new']
+        elif k == 'l_copy':
+            res['new'] = copy.deepcopy(m)
+            return res['new']
+        elif k == 'd_setitem':
+            m[resolve_key(t, a['key'])] = mat(a['v'])
+        elif k == 'd_setattr':
+            key = resolve_key(t, a['key'])
+            if not isinstance(key, str) or not key.isidentifier() or key.startswith('_'):
+                res['skip'] = True
+                return None
+            m[key] = mat(a['v'])
+        elif k == 'd_delitem':
+            del m[resolve_key(t, a['key'])]
+        elif k == 'd_pop':
+            key = resolve_key(t, a['key'])
+            return m.pop(key, 'dflt') if a.get('default') else m.pop(key)
+        elif k == 'd_popitem':
+            return m.popitem()
+        elif k == 'd_clear':
+            m.clear()
+        elif k in ('d_update', 'd_ior'):
+            items = [(resolve_key(t, kd), mat(vd)) for kd, vd in a['items']]
+            m.update(dict(items))
+        elif k == 'd_setdefault':
+            return m.setdefault(resolve_key(t, a['key']), mat(a['v']))
+        elif k == 'd_copy':
+            res['new'] = copy.deepcopy(m)
+            return res['new']
+        elif k == 'rebind':
+            # documented extensions: index past the end appends, an insertion
+            # marker inserts, the missing-value marker deletes a dict key
+            paths = []
+            for pd, vd in a['paths']:
+                keys = resolve_path(f, t, pd)
+                if keys:
+                    paths.append((keys, vd))
+            ks = [tuple(p) for p, _ in paths]
+            for i, p in enumerate(ks):
+                for j, q in enumerate(ks):
+                    if i != j and p[:len(q)] == q:
+                        res['skip'] = True      # overlapping / duplicate paths: order-dependent
+                        return None
+            if a.get('reject_at') is not None:
+                res['skip'] = True
+                return None
+            if len(paths) > 1:
+                parents = [tuple(keys[:-1]) for keys, _ in paths]
+                if len(set(parents)) < len(parents) or \
+                        any(vd[0] in ('insertion', 'missing') for _, vd in paths):
+                    # several writes into one container / shifting markers in a
+                    # batch: the order rules of rebind are not list/dict semantics
+                    res['skip'] = True
+                    return None
+            for keys, vd in paths:
+                parent = _mnav(m, keys[:-1])
+                key = keys[-1]
+                if vd[0] == 'insertion':
+                    if not isinstance(parent, list):
+                        res['skip'] = True
+                        return None
+                    parent.insert(min(key, len(parent)), mat(vd[1]))
+                elif vd[0] == 'missing':
+                    res['skip'] = True
+                    return None
+                elif isinstance(parent, list):
+                    if key >= len(parent):
+                        parent.append(mat(vd))
+                    else:
+                        parent[key] = mat(vd)
+                else:
+                    parent[key] = mat(vd)
+        else:
+            res['skip'] = True
+        return None
+
+    def on_skipped(self, step, op):
+        # the real side did not run the op: drop whatever the twin did
+        self.mirrors = [to_python(r) for r in self.forest.roots]
+        self.pending = None
+
+    def after(self, step, op, out, pre, post, pre_nodes, interrupted):
+        if self.pending is None:
+            self.mirrors = [to_python(r) for r in self.forest.roots]
+            return
+        r, res = self.pending
+        k = op['k']
+        if res['skip']:
+            # the twin did not run this op: resynchronise it from the real tree
+            self.mirrors[r] = to_python(self.forest.roots[r])
+            for nr in out.new_roots:
+                if isinstance(nr, pg.Symbolic) and len(self.mirrors) < len(self.forest.roots):
+                    self.mirrors.append(to_python(nr))
+            return
+        detail = f'{k}'
+        if res['status'] == 'raised':
+            want = type(res['exc']).__name__
+            if out.status != 'raised':
+                self.bad('C02.no-error', f'{k}|{want}',
+                         f'{k}{json.dumps(op["a"])[:200]}: Python raises {want} '
+                         f'({res["exc"]}) but the symbolic container accepted the call', step)
+                return
+            got = type(out.exc).__name__
+            if got != want and k != 'rebind':     # rebind's own path errors are not list/dict API
+                self.bad('C02.error-class', f'{k}|{want}->{got}',
+                         f'{k}{json.dumps(op["a"])[:200]}: Python raises {want}, symbolic '
+                         f'container raises {got}: {out.exc}', step)
+                return
+        elif out.status == 'raised':
+            self.bad('C02.spurious-error', f'{k}|{type(out.exc).__name__}',
+                     f'{k}{json.dumps(op["a"])[:200]}: Python accepts the call, symbolic '
+                     f'container raises {type(out.exc).__name__}: {out.exc}', step)
+            return
+        else:
+            if k in ('l_pop', 'd_pop', 'd_setdefault', 'l_getslice', 'd_popitem'):
+                got = to_python(out.result)
+                if isinstance(got, tuple):
+                    got = tuple(to_python(x) for x in got)
+                if got != res['result']:
+                    self.bad('C02.result', k, f'{k}{json.dumps(op["a"])[:200]} returned {got!r}, '
+                             f'Python returns {res["result"]!r}', step)
+                    return
+            if res['new'] is not None:
+                self.mirrors.append(res['new'])
+        # read-backs of every root against its twin
+        f = self.forest
+        while len(self.mirrors) < len(f.roots):
+            self.mirrors.append(to_python(f.roots[len(self.mirrors)]))
+        for ri, root in enumerate(f.roots):
+            m = self.mirrors[ri]
+            why = self._compare(root, m)
+            if why:
+                self.bad('C02.contents', f'{detail}|{why[0]}',
+                         f'after {k}{json.dumps(op["a"])[:200]} on root {out.root_index}: root {ri} '
+                         f'{why[1]}', step)
+                return
+
+    def _compare(self, s, m, path='$'):
+        if isinstance(m, list):
+            if not isinstance(s, pg.List):
+                return ('type', f'{path}: expected a list, found {type(s).__name__}')
+            if len(s) != len(m):
+                return ('len', f'{path}: len {len(s)} != {len(m)}; {to_python(s)!r} vs {m!r}')
+            if list(to_python(x) for x in s) != m:
+                return ('iteration', f'{path}: iterates {to_python(list(s))!r}, twin {m!r}')
+            if not (s == m):
+                return ('eq', f'{path}: pg.List != equal plain list {m!r}')
+            for probe in m[:2]:
+                if isinstance(probe, (int, str)) and probe not in s:
+                    return ('contains', f'{path}: {probe!r} in twin but not `in` symbolic list')
+            for sl in (slice(None, None, -1), slice(1, None, 2), slice(-2, None)):
+                if to_python(s[sl]) != m[sl]:
+                    return ('slice', f'{path}[{sl.start}:{sl.stop}:{sl.step}] = '
+                            f'{to_python(s[sl])!r}, twin {m[sl]!r}')
+            for i, x in enumerate(m):
+                w = self._compare(s.sym_getattr(i), x, f'{path}[{i}]')
+                if w:
+                    return w
+        elif isinstance(m, dict):
+            if not isinstance(s, pg.Dict):
+                return ('type', f'{path}: expected a dict, found {type(s).__name__}')
+            if list(s.keys()) != list(m.keys()):
+                return ('keys', f'{path}: keys {list(s.keys())!r}, twin {list(m.keys())!r}')
+            if len(s) != len(m):
+                return ('len', f'{path}: len {len(s)} != {len(m)}')
+            if to_python(s) != m or not (s == m):
+                return ('eq', f'{path}: {to_python(s)!r} vs twin {m!r}')
+            if [k for k, _ in s.items()] != list(m.keys()):
+                return ('items', f'{path}: items() order differs')
+            for kk in m:
+                if kk not in s:
+                    return ('contains', f'{path}: key {kk!r} not `in` symbolic dict')
+                w = self._compare(s.sym_getattr(kk), m[kk], f'{path}.{kk}')
+                if w:
+                    return w
+            if pg.to_json(s) != m:
+                return ('json', f'{path}: to_json {pg.to_json(s)!r} != twin {m!r}')
+        else:
+            if isinstance(s, pg.Symbolic) or s != m or type(s) is not type(m):
+                return ('leaf', f'{path}: {s!r} vs twin {m!r}')
+        return None
+
+
+ORACLES['C02'] = C02Oracle
+
+
+# ---------------------------------------------------------------------------
+# canaries
+
+
+def _canary(mod_name, owner_name, fn_name, old, new, count=1):
+    def apply():
+        import importlib
+        from sim.canary import patch_source
+        mod = importlib.import_module(mod_name)
+        owner = getattr(mod, owner_name) if owner_name else mod
+        patch_source(owner, fn_name, old, new, count)
+    return {'apply': apply}
+
+
+_L = 'pyglove.core.symbolic.list'
+_D = 'pyglove.core.symbolic.dict'
+_B = 'pyglove.core.symbolic.base'
+_O = 'pyglove.core.symbolic.object'
+
+CANARIES_BY_PROP = {
+    'C01': {
+        'relocate_never_copies': _canary(_B, 'Symbolic', '_relocate_if_symbolic',
+                                         'value = value.clone()', 'pass'),
+        'dict_paths_not_updated': _canary(_D, 'Dict', '_update_children_paths',
+                                          'v.sym_setpath(utils.KeyPath(k, new_path))', 'pass'),
+        'list_sync_skips_last': _canary(_L, 'List', '_sync_children_paths',
+                                        'for idx in range(start, len(self)):',
+                                        'for idx in range(start, len(self) - 1):'),
+        'list_setitem_no_detach': _canary(_L, 'List', '_set_item_without_permission_check',
+                                          'old_value.sym_setparent(None)', 'pass'),
+        'dict_detach_before_validate': _canary(
+            _D, 'Dict', '_set_item_without_permission_check',
+            'old_value = self.get(key, pg_typing.MISSING_VALUE)\n',
+            'old_value = self.get(key, pg_typing.MISSING_VALUE)\n'
+            '  if isinstance(old_value, base.TopologyAware) and old_value is not value:\n'
+            '    old_value.sym_setparent(None)\n'),
+        'iadd_bypasses': _canary(_L, 'List', '__iadd__', 'self.extend(other)',
+                                 'list.extend(self, other)'),
+        'reverse_no_sync': _canary(_L, 'List', 'reverse', 'self._sync_children_paths()', 'pass'),
+    },
+    'C02': {
+        'pop_wrong_negative_index': _canary(_L, 'List', 'pop',
+                                            'index = (index + len(self)) % len(self)',
+                                            'index = abs(index) % len(self)'),
+        'setdefault_overwrites': _canary(_D, 'Dict', 'setdefault',
+                                         'if value == pg_typing.MISSING_VALUE:', 'if True:'),
+        'imul_one_too_many': _canary(_L, 'List', '__imul__', 'for _ in range(n - 1):',
+                                     'for _ in range(n):'),
+        'update_ignores_kwargs': _canary(_D, 'Dict', 'update', 'updates.update(kwargs)', 'pass'),
+        'insert_off_by_one': _canary(_L, 'List', '_set_item_without_permission_check',
+                                     'list.insert(self, index, new_value)',
+                                     'list.insert(self, index + 1, new_value)'),
+        'extended_slice_size_unchecked': _canary(_L, 'List', '__setitem__',
+                                                 'if len(indices) != len(new_values):', 'if False:'),
+        'add_drops_last': _canary(_L, 'List', '__add__', 'concatenated.extend(other)',
+                                  'concatenated.extend(list(other)[:-1])'),
+        'getslice_stop_short': _canary(_L, 'List', '__getitem__',
+                                       'range(*self._parse_slice(index))',
+                                       'list(range(*self._parse_slice(index)))[:3]'),
+        'popitem_first': _canary(_D, 'Dict', 'popitem', 'key, value = super().popitem()',
+                                 'key = next(iter(dict.keys(self)))\n  value = dict.pop(self, key)'),
+    },
+}
+
+
+class _CanaryView(dict):
+    """check.py --canary looks names up in engine.CANARIES; expose all."""
+
+
+CANARIES = {}
+for _p, _d in CANARIES_BY_PROP.items():
+    for _n, _c in _d.items():
+        CANARIES[f'{_p}.{_n}'] = _c
